@@ -29,6 +29,9 @@ Audit extension (all stated in NGrid.tla, sections "C18 audit"):
  * "separable => product of single-grid integrals" on the implementation: Grid.integrate of every domain on
    the TLC-emitted factor values must be NGrid!Single and their product the observed multi-domain integral
    (ObsSinglesConform);
+ * LARGE configurations (NGrid!BigCfgs; quick: one grid of 20 points three times = 8000 points; thorough also 90 x 90
+   and 20 x 90 x 4): more points than the default integration_chunk_size, so the default point-by-point call works in
+   several chunks; chunk sizes NGrid!BigChunks; judged against the definition (ObsBigConforms);
  * FORMS (NGrid!FormOf, drawn per configuration from pools in the specification as a function of VERIF_SEED):
    dtype of weight / point arrays (f8, i8, i4, f4, longdouble), dyadic non-integer weights w/2^a, affine
    non-integer points, dyadic integrand values, 1-D points as (n,1) columns, class of the grid objects
@@ -357,7 +360,11 @@ def _build_form(cat, cfg, form):
             continue
         made[g] = _form_grid(cat[g - 1], g, form)
         grids.append(made[g])
-    return MultiDomainGrid(grids, num_domains=cfg["nd"]) if cfg["rep"] else MultiDomainGrid(grids)
+    if form["call"] == "pos":          # the constructor follows the call form as well
+        return MultiDomainGrid(grids, cfg["nd"]) if cfg["rep"] else MultiDomainGrid(grids)
+    if form["call"] == "kw":
+        return MultiDomainGrid(grid_list=grids, num_domains=cfg["nd"] if cfg["rep"] else None)
+    return MultiDomainGrid(grids, num_domains=cfg["nd"]) if cfg["rep"] else MultiDomainGrid(grids, None)
 
 
 def _fkey(p, form):
@@ -676,7 +683,10 @@ def _execute(rep, tier, skew=0, tag=None):
 def replay(path: str) -> int:
     with open(path) as f:
         v = json.load(f)
-    c = v.get("case") or {}
+    return _replay_case(v.get("case") or {}, v)
+
+
+def _replay_case(c, v):
     if "big" in c:
         print("replay: large configuration; rerunning the check")
         return run(c.get("tier") or v.get("tier", "quick"))
@@ -755,6 +765,9 @@ def _mutants():
          "return max(np.prod([grid.size for grid in self.grid_list]), 1)", "a grid without points only"),
         ("huge_chunk_wraps", ngrid, "_chunked_iterator", "islice(iterator, size)", "islice(iterator, size % 1000000)",
          "chunk sizes >= 10^6 only"),
+        ("chunk_sum_in_binary32", M, "integrate", "integral_value += np.sum(values_array * weights_array)",
+         "integral_value += np.sum(values_array * weights_array, dtype=np.float32)",
+         "exact for the small configurations; only sums beyond 2^24 (the large configuration) are lost"),
         ("writes_into_integrand_array", M, "integrate", "values = np.array(partial_integrand(self.grid_list[-1].points))",
          "values = partial_integrand(self.grid_list[-1].points); values *= 1.0",
          "harmless arithmetic, but fails on read-only / integer arrays returned by the integrand"),
